@@ -32,7 +32,7 @@ ASSUMPTIONS = [
 NOT_REACHED = ["find_peaks_kwargs other than None", "more than 80 windows per azimuth"]
 BUDGET = {"quick": dict(cases=3000, seconds=60, shards=4),
           "thorough": dict(cases=120000, seconds=600, shards=16)}
-REQUIRED = ["mon:model-final-masks", "mon:model-iteration-count", "mon:accepted-set-non-increasing",
+REQUIRED = ["mon:trace-rejection-step", "mon:trace-stop-decision", "mon:trace-logged-statistics", "mon:model-final-masks", "mon:model-iteration-count", "mon:accepted-set-non-increasing",
             "mon:trace-count-equals-return", "mon:returns-int-within-limit", "mon:permutation-invariant",
             "mon:rescaling-invariant", "iteration_events"]
 
@@ -42,6 +42,7 @@ class IterHandler(logging.Handler):
         super().__init__(level=logging.DEBUG)
         self.objs = []
         self.events = []
+        self.values = []
 
     def emit(self, record):
         try:
@@ -52,6 +53,14 @@ class IterHandler(logging.Handler):
             it = int(msg.split(":")[1])
             self.events.append((it, [(h.valid_window_boolean_mask.copy(), h.valid_peak_boolean_mask.copy())
                                      for h in self.objs]))
+            self.values.append({})
+        elif msg.startswith("\t") and ":" in msg and self.values:
+            # the quantities the implementation itself computed in this iteration (floats are logged with repr)
+            k, v = msg.strip().split(":", 1)
+            try:
+                self.values[-1][k.strip()] = float(v)
+            except ValueError:
+                pass
 
 
 HANDLER = IterHandler()
@@ -93,6 +102,7 @@ def call_fdwra(ctx, hv, kw):
     hvsrs = hv.hvsrs if isinstance(hv, hvsrpy.HvsrAzimuthal) else [hv]
     HANDLER.objs = hvsrs
     HANDLER.events = []
+    HANDLER.values = []
     err = ret = None
     try:
         with np.errstate(all="ignore"):
@@ -100,6 +110,8 @@ def call_fdwra(ctx, hv, kw):
     except Exception as e:
         err = e
     ev = HANDLER.events
+    for e, vals in zip(ev, HANDLER.values):
+        e[1].append(vals)            # snaps list gets the logged values as its last element
     HANDLER.objs = []
     ctx.count("fdwra_calls")
     ctx.count("iteration_events", len(ev))
@@ -170,6 +182,63 @@ def judge_call(ctx, hv, kw, label):
         ctx.check(ok, "accepted-set-non-increasing", f"azimuth {a}: a window was re-accepted during the iterations",
                   masks=[s[1].astype(int).tolist() for s in seq][:6], **info)
         ctx.state([len(seq), int(seq[0][1].sum()), int(seq[-1][1].sum())])
+    # trace conformance: every iteration, judged with the quantities the implementation itself logged (so the zero
+    # tests are not ambiguous here): the rejection step, the logged statistics, and the decision to stop / go on
+    from ..models import stats as MS
+    for a, h in enumerate(hvsrs):
+        if a >= len(per):
+            break
+        its = per[a]
+        for k, (itn, snaps) in enumerate(its):
+            vals = snaps[-1] if isinstance(snaps[-1], dict) else {}
+            before = snaps[a][1]
+            after = its[k + 1][1][a][1] if k + 1 < len(its) else h.valid_peak_boolean_mask
+            need = ("mean_fn_before", "std_fn_before", "diff_before")
+            if not all(x in vals for x in need):
+                ctx.count("iterations_without_logged_values")
+                continue
+            mu, sd = vals["mean_fn_before"], vals["std_fn_before"]
+            pk = h._main_peak_frq
+            acc = before & ~np.isnan(pk)
+            if acc.sum() >= 2:
+                mm, ss = float(MS.mean(pk[acc], kw["distribution_fn"])), float(MS.std(pk[acc], kw["distribution_fn"]))
+                scale = abs(mm) + 1.0
+                ctx.check(abs(mu - mm) <= 1e-9 * scale and abs(sd - ss) <= 1e-9 * scale, "trace-logged-statistics",
+                          f"azimuth {a} iteration {itn}: the statistics the implementation worked with are not those of the "
+                          "windows accepted at that point", logged=[mu, sd], model=[mm, ss], **info)
+            if np.isfinite(mu) and np.isfinite(sd):
+                lo, hi = float(MS.nth(mu, sd, -kw["n"], kw["distribution_fn"])), float(MS.nth(mu, sd, kw["n"], kw["distribution_fn"]))
+                want = before.copy()
+                clear = np.ones(before.size, dtype=bool)
+                for i in np.flatnonzero(before):
+                    p = pk[i]
+                    if np.isnan(p):
+                        want[i] = False
+                        continue
+                    m = min(abs(p - lo), abs(p - hi)) / max(abs(lo), abs(hi), abs(p), 1e-300)
+                    if m < 1e-9:
+                        clear[i] = False
+                    want[i] = (p > lo) and (p < hi)
+                ctx.check(np.array_equal(after[clear], want[clear]), "trace-rejection-step",
+                          f"azimuth {a} iteration {itn}: the windows accepted after this iteration are not those whose peak lies "
+                          "inside mean -/+ n std (computed from the mean and std the implementation logged)",
+                          before=before.astype(int), after=np.asarray(after).astype(int), expected=want.astype(int),
+                          bounds=[lo, hi], peaks=pk, **info)
+            last = (k == len(its) - 1)
+            stop_known = None
+            if all(x in vals for x in ("std_fn_after", "d_diff", "s_diff")):
+                zero = vals["diff_before"] == 0 or sd == 0 or vals["std_fn_after"] == 0
+                near = abs(vals["d_diff"] - 0.01) < 1e-11 or abs(vals["s_diff"] - 0.01) < 1e-11
+                if not near:
+                    stop_known = bool(zero or (vals["d_diff"] < 0.01 and vals["s_diff"] < 0.01))
+            elif "std_fn_after" in vals:
+                zero = vals["diff_before"] == 0 or sd == 0 or vals["std_fn_after"] == 0
+                stop_known = True if zero else None
+            if stop_known is not None and err is None:
+                should_be_last = stop_known or itn == kw["max_iterations"]
+                ctx.check(last == should_be_last, "trace-stop-decision",
+                          f"azimuth {a} iteration {itn}: the run {'stopped' if last else 'went on'} although the logged quantities "
+                          f"say it should {'go on' if not should_be_last else 'stop'}", logged=vals, **info)
     # model comparison
     if decidable:
         want_it = max(m.iterations for m in models)
@@ -338,5 +407,31 @@ def fam_scattered(ctx, rng):
         ctx.nontrivial(["scattered", n_curves, kw["n"], kw["distribution_fn"], r["ret"], r["rejected"]])
 
 
-FAMILIES = [("pre-rejected-windows", fam_pre_rejected), ("scattered-multimodal", fam_scattered), ("traditional", fam_traditional), ("azimuthal", fam_azimuthal), ("iteration-limit", fam_limit),
+def fam_symmetric_grid(ctx, rng):
+    """Peaks on an integer grid placed symmetrically about the mean-curve peak, so that |mean fn - mean-curve peak| is
+    EXACTLY zero at the start of some iteration (sums of small integers are exact): the iteration must still reject the
+    windows outside mean -/+ n std before the run ends."""
+    import hvsrpy
+    f = np.arange(1.0, 41.0)
+    c = int(rng.integers(8, 30))
+    core = [c] * int(rng.integers(4, 9)) + [c - 1, c + 1] * int(rng.integers(0, 3))
+    k = int(rng.integers(3, 7))
+    outl = [c - k, c + k] * int(rng.integers(1, 3))
+    extra = [int(rng.integers(34, 40))] if rng.random() < 0.5 else []      # an asymmetric outlier removed in iteration 1
+    peaks = core + outl + extra
+    rng.shuffle(peaks)
+    amp = np.empty((len(peaks), f.size))
+    for i, p in enumerate(peaks):
+        amp[i] = 1.0 + 4.0 * np.maximum(0.0, 1.0 - np.abs(f - p) / 2.0)
+    kw = dict(n=float(rng.choice([1.0, 1.5, 2.0])), max_iterations=50, distribution_fn="normal",
+              distribution_mc=str(rng.choice(["lognormal", "normal"])), search_range_in_hz=(None, None))
+    hv = hvsrpy.HvsrTraditional(f, amp)
+    r = judge_call(ctx, hv, kw, "symmetric integer grid")
+    ctx.describe(kind="traditional-symmetric-integer-grid", peaks=peaks, **{k2: (list(v) if isinstance(v, tuple) else v) for k2, v in kw.items()},
+                 returned=None if r is None else r["ret"])
+    if r is not None:
+        ctx.nontrivial(["symmetric", sorted(peaks), kw["n"], kw["distribution_mc"], r["ret"], r["rejected"]])
+
+
+FAMILIES = [("symmetric-integer-grid", fam_symmetric_grid), ("pre-rejected-windows", fam_pre_rejected), ("scattered-multimodal", fam_scattered), ("traditional", fam_traditional), ("azimuthal", fam_azimuthal), ("iteration-limit", fam_limit),
             ("traditional-2", fam_traditional)]
